@@ -241,7 +241,7 @@ def write_evidence(mod, tier, seed, merged, wall, nviol, nshards):
         samples = merged['samples'][:2]
     cov = {
         'evaluations': merged['evaluations'],
-        'distinct_nontrivial': len(merged['nontrivial']),
+        'distinct_nontrivial': len(merged['nontrivial']) + int(merged['extra'].get('enumerated_nontrivial', 0)),
         'rule': mod.RULE,
         'samples': samples,
         'distinct_cases': merged['distinct'],
